@@ -17,6 +17,8 @@ import (
 	"time"
 
 	"github.com/gopcua/opcua"
+	"github.com/gopcua/opcua/id"
+	"github.com/gopcua/opcua/server"
 	"github.com/gopcua/opcua/ua"
 
 	"verifharness/internal/rng"
@@ -184,6 +186,28 @@ func c34run(run int, mode string, seed uint64, nclients, opsPerWorker, nnodes in
 		return err
 	}
 	defer ts.Close()
+	if mode == "idkinds" {
+		// registers whose node ids are of EVERY kind, two of each kind in the one namespace: numeric (two-byte range,
+		// four-byte range, large), string (plain, with a separator, empty), GUID, opaque ByteString (incl. the empty one).
+		// The namespace keys its nodes by the id; two ids must never share a slot.
+		nsi := ts.NS.ID()
+		ids := []*ua.NodeID{
+			ua.NewNumericNodeID(nsi, 7), ua.NewNumericNodeID(nsi, 8),
+			ua.NewNumericNodeID(nsi, 4242), ua.NewNumericNodeID(nsi, 65535),
+			ua.NewNumericNodeID(nsi, 65536), ua.NewNumericNodeID(nsi, 4294967295),
+			ua.NewStringNodeID(nsi, "alpha"), ua.NewStringNodeID(nsi, "a;b"), ua.NewStringNodeID(nsi, ""),
+			ua.NewGUIDNodeID(nsi, "550E8400-E29B-41D4-A716-446655440000"), ua.NewGUIDNodeID(nsi, "550E8400-E29B-41D4-A716-446655440001"),
+			ua.NewByteStringNodeID(nsi, []byte{1, 2, 3}), ua.NewByteStringNodeID(nsi, []byte{0xff, 0x00, 0x7f, 0x80}), ua.NewByteStringNodeID(nsi, []byte{}),
+		}
+		ts.Nodes = nil
+		for i, nid := range ids {
+			n := server.NewVariableNode(nid, fmt.Sprintf("k%d", i), int64(0))
+			ts.NS.AddNode(n)
+			ts.NS.Objects().AddRef(n, id.HasComponent, true)
+			ts.Nodes = append(ts.Nodes, nid)
+		}
+		nnodes = len(ids)
+	}
 	ctx, cancel := context.WithTimeout(context.Background(), 120*time.Second)
 	defer cancel()
 	if _, err := getEndpoints(ctx, ts.URL); err != nil {
@@ -316,6 +340,8 @@ func c34(seed uint64, runs, opsPerWorker int) {
 			mode, ops = "blob", opsPerWorker/3+4 // 80 KiB values: every request or response spans two chunks
 		} else if i%6 == 4 {
 			mode = "range" // 64-byte ByteString values, whole reads and reads with an IndexRange
+		} else if i%6 == 3 {
+			mode, ops = "idkinds", opsPerWorker*2 // 14 registers with node ids of every kind
 		}
 		if err := c34run(i, mode, r.U64(), 4, ops, nn); err != nil {
 			emit(map[string]interface{}{"kind": "c34err", "run": i, "err": err.Error()})
